@@ -261,6 +261,9 @@ class Term:
         elif isinstance(other, (Intercept, NegatedIntercept)):
             # x + 1, x + 0 -> the (negated) intercept is kept so '|' can resolve it later
             return Model(self, other)
+        elif isinstance(other, GroupSpecificTerm):
+            # x + (1|g), as in the parenthesised 'y ~ (x + (1|g))'
+            return Model(self, other)
         elif isinstance(other, Model):
             return Model(self) + other
         else:  # pragma: no cover
@@ -286,6 +289,9 @@ class Term:
         elif isinstance(other, Intercept):
             # x - 1 -> same as x + 0
             return Model(self, NegatedIntercept())
+        elif isinstance(other, GroupSpecificTerm):
+            # x - (1|g) -> x
+            return self
         elif isinstance(other, Model):
             if self in other.terms:
                 return Model()
@@ -641,6 +647,28 @@ class GroupSpecificTerm:
 
     def __hash__(self):
         return hash((self.expr, self.factor))
+
+    def __add__(self, other):
+        """Addition operator. Analogous to set union.
+
+        It is reached when a group-specific term is the left operand inside parentheses, as in
+        ``"x + ((1|g) + (1|h))"``.
+        """
+        if self == other:
+            return self
+        elif isinstance(other, (Term, GroupSpecificTerm, Intercept, NegatedIntercept)):
+            return Model(self, other)
+        elif isinstance(other, Model):
+            return Model(self) + other
+        else:  # pragma: no cover
+            return NotImplemented
+
+    def __sub__(self, other):
+        """Subtraction operator. Analogous to set difference."""
+        if isinstance(other, (Term, GroupSpecificTerm, Intercept, NegatedIntercept, Model)):
+            return Model(self) - other
+        else:  # pragma: no cover
+            return NotImplemented
 
     def __repr__(self):  # pragma: no cover
         return self.__str__()
